@@ -303,6 +303,10 @@ def run(ctx):
                 if ir != mr:
                     mismatches.append(("iteration", dict(c2, impl=rl, model=mR)))
                 why = oracle(ir, a, b, segshep, ss, act)
+                if why is None and k == 3 and acc != b - a:
+                    # qarray_iter_loopaccum: the callback returns the number of indices of its range and acc adds, so
+                    # the accumulated result of an exact iteration is the length of the range
+                    why = "qarray_iter_loopaccum accumulated %d, the range has %d indices (each visited once)" % (acc, b - a)
                 if why:
                     sig = known_class(k, dk, a, b, ss, segshep, sps, extras)
                     oracle_fail.append((sig, why, dict(c2, impl=rl)))
